@@ -763,4 +763,72 @@ def r18_12(ctx):
     return out
 
 
-RULES = [r18_1, r18_2, r18_3, r18_4, r18_5, r18_6, r18_7, r18_8, r18_9, r18_10, r18_11, r18_12]
+def r18_13(ctx):
+    """abstract run (W) of BezierCurve.eval (through Math.bezier_caract_matrix and Math.horner_method, numpy's dot
+    answered exactly on Fractions) on scalar control values of degree 1, 2, 3 and 5: the values at several parameters are
+    those of de Casteljau's algorithm"""
+    out = Outcome("R18.13", "BezierCurve.eval(nodes) = the Bernstein combination of the control points at every node, in the "
+                            "order of the nodes (degrees 1, 2, 3, 5 against de Casteljau)", floor=4)
+    fn = ctx.fn("curve.BezierCurve.eval")
+
+    def casteljau(pts, t):
+        cur = list(pts)
+        while len(cur) > 1:
+            cur = [(1 - t) * a + t * b for a, b in zip(cur, cur[1:])]
+        return cur[0]
+
+    def dot(a, b):
+        def is_mat(m):
+            return isinstance(m, (list, tuple)) and m and isinstance(m[0], (list, tuple))
+        a = [list(r) for r in a] if is_mat(a) else list(a)
+        b = [list(r) for r in b] if is_mat(b) else list(b)
+        if not is_mat(a) and is_mat(b):
+            return [sum((a[i] * b[i][j] for i in range(len(a))), Fr(0)) for j in range(len(b[0]))]
+        if is_mat(a) and not is_mat(b):
+            return [sum((a[i][j] * b[j] for j in range(len(b))), Fr(0)) for i in range(len(a))]
+        if is_mat(a) and is_mat(b):
+            return [[sum((a[i][k] * b[k][j] for k in range(len(b))), Fr(0)) for j in range(len(b[0]))] for i in range(len(a))]
+        return sum((x * y for x, y in zip(a, b)), Fr(0))
+    class Arr2(StandIn):
+        """the object-dtype matrix the characteristic matrix is filled into"""
+
+        def __init__(self, n, m):
+            self.rows = [[Fr(0)] * m for _ in range(n)]
+
+        def __setitem__(self, ij, v):
+            self.rows[ij[0]][ij[1]] = v
+
+        def __getitem__(self, ij):
+            return self.rows[ij[0]][ij[1]] if isinstance(ij, tuple) else self.rows[ij]
+
+        def __iter__(self):
+            return iter(self.rows)
+
+        def __len__(self):
+            return len(self.rows)
+    ext = {"np.dot": dot, "np.matmul": dot, "np.tensordot": lambda a, b, axes=None: dot(a, b), "np.inner": dot,
+           "np.array": lambda x, dtype=None: x, "np.asarray": lambda x, dtype=None: x,
+           "np.zeros": lambda shape, dtype=None: (Arr2(shape[0], shape[1]) if isinstance(shape, tuple) else [Fr(0)] * shape),
+           "math.comb": __import__("math").comb}
+    enter = {"curve.Math.bezier_caract_matrix", "curve.Math.horner_method", "curve.Math.comb", "curve.BezierCurve.degree",
+             "curve.BezierCurve.npts", "curve.BezierCurve.ctrlpoints"}
+    nodes = (Fr(0), Fr(1, 3), Fr(1, 2), Fr(7, 8), Fr(1))
+    for pts in ((Fr(2), Fr(-1)), (Fr(0), Fr(3), Fr(1)), (Fr(1), Fr(-2), Fr(4), Fr(3)), (Fr(1), Fr(0), Fr(5), Fr(-3), Fr(2), Fr(7))):
+        d = len(pts) - 1
+        B = Obj("B", ctrlpoints=tuple(pts), degree=d, npts=d + 1)
+        try:
+            got = list(Runner(ctx, enter, None, ext=ext).call_fn(fn, [B, nodes]))
+        except (Undecided, Raised, TypeError, IndexError) as ex:
+            out.undecided(fn.qname, f"degree {d}: {ex}", where=fn.where())
+            continue
+        want = [casteljau(pts, t) for t in nodes]
+        if [Fr(g) for g in got] == want:
+            out.ok(fn.qname, f"degree {d}: values at {len(nodes)} nodes agree with de Casteljau", where=fn.where())
+        else:
+            out.bad(fn.qname, "evaluation is not the Bernstein combination of the control points", where=fn.where(),
+                    detail=f"degree {d}, control values {[str(p) for p in pts]} at {[str(t) for t in nodes]}: "
+                           f"{[str(g) for g in got]}, de Casteljau gives {[str(w) for w in want]}")
+    return out
+
+
+RULES = [r18_1, r18_2, r18_3, r18_4, r18_5, r18_6, r18_7, r18_8, r18_9, r18_10, r18_11, r18_12, r18_13]
